@@ -1,0 +1,34 @@
+//go:build verif
+
+// Contracts for package compiler, checked by /verif (govc). Comment-only file.
+package compiler
+
+// C13: getter / must-getter resolution, transcribed from the property statement.
+//@ func (StepCompileServices).getter
+//@   property C13
+//@   ensures [getter_is_configured_or_empty] getter == (svc.Getter == nil ? "" : *svc.Getter)
+//@   ensures [must_getter_iff] err == nil ==> (mustGetter <==> (getter != "" &&
+//@             ((svc.MustGetter != nil && *svc.MustGetter) ||
+//@              (svc.MustGetter == nil && m.DefaultMustGetter != nil && *m.DefaultMustGetter))))
+//@   ensures [explicit_must_without_getter_rejected] (err != nil) <==> (getter == "" && svc.MustGetter != nil && *svc.MustGetter)
+
+// C13: package, type and constructor names are the configured ones or the documented defaults.
+//@ func (*StepCompileMeta).Process
+//@   property C13
+//@   requires d != nil
+//@   requires [wired] s.aliasRegisterer != nil && s.funcRegisterer != nil
+//@   modifies d.Meta
+//@   ensures [pkg] d.Meta.Pkg == (i.Meta.Pkg == nil ? "main" : *i.Meta.Pkg)
+//@   ensures [container_type] d.Meta.ContainerType == (i.Meta.ContainerType == nil ? "Gontainer" : *i.Meta.ContainerType)
+//@   ensures [container_constructor] d.Meta.ContainerConstructor == (i.Meta.ContainerConstructor == nil ? "NewGontainer" : *i.Meta.ContainerConstructor)
+
+// Composition invariant (established by the DI root, evaluated not proved): injected collaborators are non-nil.
+//@ func (*StepCompileMeta).handleImports
+//@   property C14
+//@   requires [wired] s.aliasRegisterer != nil
+//@   loop 1
+//@     invariant [errs_nonneg] len(errs) >= 0
+
+//@ func (*StepCompileMeta).handleFunctions
+//@   property C14 C15
+//@   requires [wired] s.funcRegisterer != nil
